@@ -1,5 +1,212 @@
-"""C11 / C14 / C15 monitors for the planning policies (filled in per policy)."""
+"""C11 (precedence), C14 (maximality / goodput) and C15 (Clockwork batches) monitors for the
+planning policies, evaluated on every real invocation of a driven run (and on the extra
+solver-choice probes)."""
+from . import monitor
+from .monitor import _us, demand_of
+
+DAG_AWARE = ("ILP", "TetriSchedGurobi")
 
 
-def check(ctx, sched, now, task_pl, plist, offered, placements):
-    return
+def check(ctx, sched, now, task_pl, plist, offered, placements, probe=False):
+    name = ctx.policy_name
+    if name in DAG_AWARE:
+        monitor._safe(ctx, check_c11, sched, now, task_pl)
+    if name in ("TetriSchedGurobi", "TetriSchedCPLEX") and not probe and not ctx.solver_chaos_active:
+        monitor._safe(ctx, check_c14_maximal, sched, now, task_pl, offered)
+    if name == "ILP" and not probe and not ctx.solver_chaos_active:
+        from . import goodput
+
+        monitor._safe(ctx, goodput.check_c14_ilp, sched, now, task_pl, offered)
+    if name == "Clockwork":
+        from . import clockmon
+
+        monitor._safe(ctx, clockmon.check_c15, sched, now, task_pl, plist)
+
+
+# ----------------------------------------------------------------------------- C11
+def check_c11(ctx, sched, now, task_pl):
+    name = ctx.policy_name
+    dec = {id(p.task): p for p in task_pl}
+    for p in task_pl:
+        if p.placement_type.name != "PLACE_TASK" or not p.is_placed():
+            continue
+        t = p.task
+        s = ctx.shadow(t)
+        node = ctx.nodes.get(s.base, {}).get(s.node, {})
+        start = _us(p.placement_time)
+        for pname, ps in ctx.parent_shadows(s):
+            if ps is None:
+                continue
+            pt = ps.task
+            st = pt.state.name
+            if st in ("COMPLETED", "CANCELLED"):
+                continue
+            q = dec.get(id(pt))
+            if q is not None and q.placement_type.name == "PLACE_TASK":
+                ctx.probe("c11_parent_and_child_codecided")
+                if not q.is_placed():
+                    if not node.get("terminal"):
+                        ctx.violate("C11", "child_placed_without_parent",
+                                    f"{name} at t={now}: {t.unique_name} placed at {start} while its predecessor "
+                                    f"{pt.unique_name}, decided in the same invocation, is left unplaced",
+                                    {"policy": name})
+                    continue
+                pstart = _us(q.placement_time)
+                prt = _us(q.execution_strategy.runtime) if q.execution_strategy is not None else 0
+                if start < pstart + prt:
+                    ctx.violate("C11", "child_before_parent_end",
+                                f"{name} at t={now}: {t.unique_name} starts at {start}, its predecessor "
+                                f"{pt.unique_name} is placed at {pstart} with runtime {prt} (ends {pstart + prt})",
+                                {"policy": name, "gap": pstart + prt - start})
+                elif start == pstart + prt:
+                    ctx.probe("c11_back_to_back")
+            elif q is not None and q.placement_type.name == "CANCEL_TASK":
+                ctx.violate("C11", "child_placed_with_cancelled_parent",
+                            f"{name} at t={now}: {t.unique_name} placed while {pt.unique_name} is cancelled in the "
+                            f"same invocation", {"policy": name})
+            elif st == "RUNNING":
+                fin = now + _us(pt.remaining_time)
+                ctx.probe("c11_running_parent")
+                if start < fin:
+                    ctx.violate("C11", "child_before_running_parent_end",
+                                f"{name} at t={now}: {t.unique_name} starts at {start}, running predecessor "
+                                f"{pt.unique_name} is expected to finish at {fin}", {"policy": name})
+            elif st == "SCHEDULED":
+                cp = pt.current_placement
+                if cp is None or cp.execution_strategy is None or ps.deferred:
+                    continue
+                fin = _us(cp.placement_time) + _us(cp.execution_strategy.runtime)
+                ctx.probe("c11_scheduled_parent")
+                if start < fin:
+                    ctx.violate("C11", "child_before_scheduled_parent_end",
+                                f"{name} at t={now}: {t.unique_name} starts at {start}, scheduled predecessor "
+                                f"{pt.unique_name} is expected to finish at {fin}", {"policy": name})
+
+
+# ----------------------------------------------------------------------------- C14 (TetriSched)
+def check_c14_maximal(ctx, sched, now, task_pl, offered):
+    """for every offered task left unplaced no (slot, worker, strategy) exists at which it could be
+    added to the returned plan without breaking capacity, release, precedence or deadline limits
+    (slot conventions of the planners: starts on the grid now + k*d <= now + plan_ahead; a task placed
+    at t with runtime r occupies the grid instants g with t <= g < t + r; a running task occupies from
+    now for the runtime of its strategy; a child starts at least 1us after its predecessor's worst-case
+    end)."""
+    name = ctx.policy_name
+    pol = ctx.world["policy"]
+    d = max(1, pol.get("discretization", 1))
+    plan_ahead = pol.get("plan_ahead", 10)
+    grid = list(range(now, now + plan_ahead + 1, d))
+    enforce = bool(pol.get("enforce_deadlines"))
+    dag = name == "TetriSchedGurobi"
+    unplaced = [p for p in task_pl if p.placement_type.name == "PLACE_TASK" and not p.is_placed()]
+    if not unplaced or len(offered) > 4:
+        return
+    workers = []
+    for pool in ctx.built.worker_pools.worker_pools:
+        for w in pool.workers:
+            workers.append(w)
+    if len(workers) > 2:
+        return
+    ctx.probe("c14_maximality_checked")
+    # occupancy of the returned plan per worker: list of (start, runtime, demand)
+    occ = {id(w): [] for w in workers}
+    placed_info = {}
+    dec = {id(p.task): p for p in task_pl}
+    for led in ctx.ledgers.values():
+        for tid, (task, strat) in led.residents.items():
+            occ[id(led.worker)].append((now, _us(strat.runtime), demand_of(strat)))
+            placed_info[id(task)] = (now, _us(task.remaining_time), "running")
+    for p in task_pl:
+        if p.placement_type.name == "PLACE_TASK" and p.is_placed() and p.execution_strategy is not None:
+            for w in workers:
+                if w.id == p.worker_id:
+                    occ[id(w)].append((_us(p.placement_time), _us(p.execution_strategy.runtime),
+                                       demand_of(p.execution_strategy)))
+            slow = max(_us(x.runtime) for x in p.task.available_execution_strategies)
+            placed_info[id(p.task)] = (_us(p.placement_time), slow, "placed")
+    # scheduled tasks that were not re-decided keep their slot
+    for t in ctx.all_live_tasks():
+        if t.state.name == "SCHEDULED" and id(t) not in dec:
+            cp = t.current_placement
+            if cp is None or cp.execution_strategy is None or cp.worker_id is None:
+                return
+            for w in workers:
+                if w.id == cp.worker_id:
+                    occ[id(w)].append((_us(cp.placement_time), _us(cp.execution_strategy.runtime),
+                                       demand_of(cp.execution_strategy)))
+            slow = max(_us(x.runtime) for x in t.available_execution_strategies)
+            placed_info[id(t)] = (_us(cp.placement_time), slow, "scheduled")
+    totals = {id(led.worker): led.total_by_type for led in ctx.ledgers.values()}
+
+    def fits(w, t0, rt, dem):
+        if rt == 0:
+            return True
+        for g in grid:
+            if not (t0 <= g < t0 + rt):
+                continue
+            use = {}
+            for (a, r, dm) in occ[id(w)]:
+                if a <= g < a + r:
+                    for n, _, q in dm:
+                        use[n] = use.get(n, 0) + q
+            for n, _, q in dem:
+                if use.get(n, 0) + q > totals[id(w)].get(n, 0):
+                    return False
+        return True
+
+    for p in unplaced:
+        t = p.task
+        s = ctx.shadow(t)
+        rel = _us(t.release_time)
+        dl = _us(t.deadline)
+        # precedence lower bound
+        lb = now
+        blocked = False
+        if dag:
+            for pname, ps in ctx.parent_shadows(s):
+                if ps is None or ps.task.state.name in ("COMPLETED", "CANCELLED"):
+                    continue
+                info = placed_info.get(id(ps.task))
+                if info is None:
+                    blocked = True  # an unfinished predecessor without a slot: cannot be ordered after it
+                    break
+                lb = max(lb, info[0] + info[1] + 1)
+        else:
+            pass
+        if blocked:
+            continue
+        for st in t.available_execution_strategies:
+            rt = _us(st.runtime)
+            dem = demand_of(st)
+            if any(rid != "any" for _, rid, _ in dem):
+                continue
+            for w in workers:
+                tot = totals[id(w)]
+                if any(tot.get(n, 0) < q for n, _, q in dem):
+                    continue
+                for t0 in grid:
+                    if t0 < lb or (rel is not None and rel >= 0 and t0 < rel):
+                        continue
+                    if enforce and t0 + rt > dl:
+                        continue
+                    if fits(w, t0, rt, dem):
+                        ctx.violate("C14", "plan_not_maximal",
+                                    f"{name} at t={now}: offered task {t.unique_name} is left unplaced although it "
+                                    f"can be added at slot {t0} on worker {w.name} with strategy runtime {rt} "
+                                    f"demand {dem} (grid step {d}, plan_ahead {plan_ahead}, enforce={enforce}) "
+                                    f"without breaking capacity, release, precedence or deadline; plan="
+                                    f"{[(q.task.unique_name, _us(q.placement_time) if q.is_placed() else None, _us(q.execution_strategy.runtime) if q.is_placed() and q.execution_strategy else None) for q in task_pl if q.placement_type.name == 'PLACE_TASK']} "
+                                    f"occupancy={[(a, r) for w_ in workers for (a, r, _) in occ[id(w_)]]}",
+                                    {"policy": name, "state": t.state.name,
+                                     "empty_plan": not any(q.placement_type.name == "PLACE_TASK" and q.is_placed()
+                                                           for q in task_pl),
+                                     "pinned_scheduled_tasks": (not pol.get("retract")) and any(
+                                         x.state.name == "SCHEDULED" for x in ctx.all_live_tasks()),
+                                     "release_taskgraphs": bool(pol.get("release_taskgraphs")),
+                                     "lookahead": pol.get("lookahead", 0) > 0,
+                                     "coarse_grid": d > 1, "offered": len(offered),
+                                     "has_unfinished_parent": any(ps is not None and ps.task.state.name not in
+                                                                  ("COMPLETED", "CANCELLED")
+                                                                  for _, ps in ctx.parent_shadows(s)),
+                                     "zero_runtime": rt == 0})
+                        return
